@@ -78,7 +78,7 @@ UserCb(raises, obs) ==
 Tick(t) == /\ t > now
            /\ Quiet => open = {}                                            \* C02, C03
            /\ now' = t
-           /\ settled' = (settled \/ Quiet) /\ fsettled' = (fsettled \/ faulted)
+           /\ settled' = (settled \/ Quiet) /\ fsettled' = (fsettled \/ (faulted /\ live = {}))   \* a live window/group keeps the pipeline running
            /\ UNCHANGED <<open, ever, stopped, disposed, live, gone, faulted, strict>>
 
 \* the end of the observed run is judged like a passing of time
